@@ -10,6 +10,7 @@ ppci runs in a forked child per (module, target) (vf/wasmppci.py).
 
 import itertools
 import json
+import os
 import math
 import re
 import struct
@@ -743,7 +744,7 @@ def _job(arg):
 
 def run(ctx):
     preload()
-    open_ids = core.open_finding_ids(PID)
+    open_ids = core.open_finding_ids(PID) - set(os.environ.get("VERIF_ASSUME_FIXED", "").split(","))  # validation of fixes/*.diff
     tier = "quick" if ctx.quick else "full"
     sizes = dict(max_funcs=ctx.scale(3, 4), fuel=ctx.scale(30, 45), depth=ctx.scale(4, 5), budget_s=ctx.scale(40, 1500),
                  shrink_s=ctx.scale(40, 240))  # fmt: skip
